@@ -70,7 +70,8 @@ def cases(draw, tier):
         struct = draw(st.sampled_from(["kron", "bd", "bd_of_kron", "kron_of_bd", "diag"]))
     return {"entry": entry, "struct": struct, "fact": draw(st.sampled_from(FACT3 if struct in ("kron", "kronsum") and draw(st.booleans()) else FACT2)),
             "block": draw(st.integers(4, 16)), "seed": draw(st.integers(0, 10**5)), "ncol": draw(st.sampled_from([0, 2])),
-            "with_alg": draw(st.booleans()), "cplx": draw(st.integers(1, 5)) == 1}
+            "with_alg": draw(st.booleans()), "cplx": draw(st.integers(1, 5)) == 1,
+            "alg": draw(st.sampled_from(["Auto", "Auto", "LU", "Cholesky", "Eig", "Eigh"])), "exponent": draw(st.sampled_from([1.5, 0.5, 2, -1, -2, 10, 12]))}
 
 
 def strategy(tier):
@@ -194,7 +195,20 @@ def check(case, out):
     with_alg = case["with_alg"]
     out.label("entry:" + entry, "struct:" + struct, "alg:" + ("explicit" if with_alg else "omitted"), "complex" if case["cplx"] else "real")
     out.nontrivial = entry != "matvec" or struct in ("bd_of_kron", "kron_of_bd") or not with_alg
-    alg = [L.Auto()] if with_alg else []
+    # explicit algorithm objects admitted by the entry point (structural rules take any Algorithm and pass it down to the factors)
+    name = case.get("alg", "Auto")
+    if entry in ("inv", "solve", "logdet") and name in ("Eig", "Eigh"):
+        name = "LU" if name == "Eig" else "Cholesky"
+    if entry in ("exp", "log", "sqrt", "isqrt", "pow", "apply_unary") and name in ("LU", "Cholesky"):
+        name = "Eig" if name == "LU" else "Eigh"
+    if entry in ("diag", "trace", "matvec", "cholesky", "plu"):
+        name = "Auto"
+    if struct in ("prod_kron_diag", "scaled_kron", "sum", "prod", "sum_kron_diag") and name in ("Cholesky", "Eigh"):
+        name = "Auto"  # these composites are not declared PSD
+    algobj = {"Auto": L.Auto, "LU": L.LU, "Cholesky": L.Cholesky, "Eig": L.Eig, "Eigh": L.Eigh}[name]()
+    alg = [algobj] if with_alg else []
+    out.label("algname:" + (name if with_alg else "omitted"))
+    expo = case.get("exponent", 1.5)
 
     def call():
         if entry == "matvec":
@@ -204,7 +218,7 @@ def check(case, out):
         if entry == "solve":
             return L.solve(A, x, *alg)
         if entry == "logdet":
-            return L.logdet(A, *alg) if not with_alg else L.logdet(A, log_alg=L.Auto(), trace_alg=L.Auto())
+            return L.logdet(A, *alg) if not with_alg else L.logdet(A, log_alg=algobj, trace_alg=L.Auto())
         if entry == "diag":
             return L.diag(A, 0, *alg)
         if entry == "trace":
@@ -212,7 +226,7 @@ def check(case, out):
         if entry in ("exp", "log", "sqrt", "isqrt"):
             return getattr(L, entry)(A, *alg) @ x
         if entry == "pow":
-            return L.pow(A, 1.5, *alg) @ x
+            return L.pow(A, expo, *alg) @ x
         if entry == "apply_unary":
             return L.apply_unary(np.tanh, A, *alg) @ x
         if entry == "cholesky":
@@ -222,7 +236,7 @@ def check(case, out):
             return P @ (Lo @ (U @ x))
         raise ValueError(entry)
 
-    site = f"{entry}:{struct}:{'alg' if with_alg else 'noalg'}"
+    site = f"{entry}:{struct}:{name if with_alg else 'noalg'}" + (f":a={expo}" if entry == "pow" else "")
     try:
         res, peak = measure(call)
     except Exception as e:
